@@ -698,7 +698,7 @@ REAL_CONFIG = {
     "large": {"MIO": {"iters": 12, "population": 4}, "MOSA": {"iters": 4, "population": 4},
               "DYNAMOSA": {"iters": 4, "population": 4}},
 }
-MODULES = ["numeric", "raising"]
+MODULES = ["numeric", "raising", "shifting"]
 ALGOS = ["MIO", "MOSA", "DYNAMOSA"]
 
 
@@ -711,7 +711,7 @@ def _real_jobs(tier):
             for algo in ALGOS:
                 jobs.append((module, algo, "small", 0, list(range(12)), 0, 1))
         # complete deviation bound 1 around the neutral execution
-        for module, algo, nparts in (("numeric", "MIO", 1), ("raising", "MIO", 1),
+        for module, algo, nparts in (("numeric", "MIO", 1), ("raising", "MIO", 1), ("shifting", "MIO", 2),
                                      ("raising", "MOSA", 2), ("raising", "DYNAMOSA", 2)):
             for part in range(nparts):
                 jobs.append((module, algo, "small", 1, [0], part, nparts))
